@@ -339,6 +339,24 @@ pub fn run_srv(toks: &[&str], dir: &Path) -> String {
                     }
                     out.push(upload(peer, r, listener, single, &content));
                     settle(3);
+                } else if cont == "M" {
+                    // measure the retransmission interval: take the first window, then stay silent until it comes again
+                    let tid = if single { listener } else { r.1 };
+                    if r.0.len() >= 2 && r.0[1] == 6 {
+                        peer.sock.send_to(&Packet::Ack(0).serialize().unwrap(), tid).unwrap();
+                        let _ = peer.recv(500); // DATA 1
+                    }
+                    let t0 = Instant::now();
+                    let again = peer.recv(6000);
+                    let secs = (t0.elapsed().as_millis() as f64 / 1000.0).round() as u64;
+                    out.push(match again {
+                        Some((d, _)) if d.len() >= 4 && d[1] == 3 => format!("rt={secs}"),
+                        _ => "rt=none".to_string(),
+                    });
+                    // end the transfer
+                    let e = Packet::Error { code: tftpd::ErrorCode::NotDefined, msg: "done".into() };
+                    let _ = peer.sock.send_to(&e.serialize().unwrap(), tid);
+                    settle(30);
                 } else if cont == "E" {
                     let tid = if single { listener } else { r.1 };
                     if r.0.len() >= 2 && r.0[1] != 5 {
